@@ -5,10 +5,13 @@
    (C13_rejects_rendered, C13_only_failing_patch_and_failed_files, C13_every_failed_file), none when the
    push succeeds or is a dry run (C13_none_on_success), and written one create each, after the tree is saved; the hunks
    written are exactly the ones reported Failed (failed_hunks, by definition of write_rej).
-   PARTIAL: the header of the reject (file names) round trip is decided by the runs (see C12). *)
+   The whole reject of one file patch - header lines and failed hunks - is read back as ONE file patch with the same
+   names, rename flag, modes and hashes and exactly the failed hunks (C13_reject_reads_back), for every file
+   patch of every patch the parser accepts (C13_parsed_reject_reads_back).
+   PARTIAL: several rejects merged into one file (several sections of a patch for one file) are compared by the runs. *)
 From Coq Require Import List ZArith NArith Bool.
 Import ListNotations.
-From RQ Require Import Params Base Apply Parser Writer Quilt WriterProofs QuiltProofs.
+From RQ Require Import Params Base Apply Parser Writer Quilt WriterProofs QuiltProofs FilenameProofs HeaderProofs ParsedProofs RejectProofs.
 
 Theorem C13_hunks_roundtrip :
   forall hs, Forall wf_phunk hs -> forall out rest fuel acc,
@@ -17,6 +20,32 @@ Theorem C13_hunks_roundtrip :
   exists hs', parse_hunks fuel (out ++ rest) acc = Ok (POk rest (acc ++ hs')) /\ Forall2 same_hunk hs hs'.
 Proof. exact write_parse_hunks. Qed.
 Print Assumptions C13_hunks_roundtrip.
+
+(* header and failed hunks together: the reject parses as a patch for that file with exactly the failed hunks *)
+Theorem C13_reject_reads_back :
+  forall fp rep out,
+    wf_fp0 fp -> r_failed rep = true -> failed_hunks (pf_hunks fp) (r_hunks rep) <> [] ->
+    write_rej fp rep = Ok out ->
+    exists fp', parse_filepatch out false = Ok (POk [] ([], fp')) /\
+                pf_old fp' = pf_old fp /\ pf_new fp' = pf_new fp /\ pf_rename fp' = pf_rename fp /\
+                pf_operm fp' = pf_operm fp /\ pf_nperm fp' = pf_nperm fp /\
+                pf_ohash fp' = pf_ohash fp /\ pf_nhash fp' = pf_nhash fp /\
+                Forall2 same_hunk (failed_hunks (pf_hunks fp) (r_hunks rep)) (pf_hunks fp').
+Proof. exact rej_roundtrip. Qed.
+Print Assumptions C13_reject_reads_back.
+
+Theorem C13_parsed_reject_reads_back :
+  forall input strip wh p fp rep out,
+    parse_patch input strip wh = Ok (Parsed p) -> Forall is_byte input -> In fp (pp_fps p) ->
+    r_failed rep = true -> failed_hunks (pf_hunks fp) (r_hunks rep) <> [] ->
+    write_rej fp rep = Ok out ->
+    exists fp', parse_filepatch out false = Ok (POk [] ([], fp')) /\
+                pf_old fp' = pf_old fp /\ pf_new fp' = pf_new fp /\ pf_rename fp' = pf_rename fp /\
+                pf_operm fp' = pf_operm fp /\ pf_nperm fp' = pf_nperm fp /\
+                pf_ohash fp' = pf_ohash fp /\ pf_nhash fp' = pf_nhash fp /\
+                Forall2 same_hunk (failed_hunks (pf_hunks fp) (r_hunks rep)) (pf_hunks fp').
+Proof. exact parsed_rej_roundtrip. Qed.
+Print Assumptions C13_parsed_reject_reads_back.
 
 (* which rejects are rendered when patch [index] failed: one per file patch of that patch whose report
    has a failed hunk - named <target>.rej, content write_rej of that file patch and its report - and
